@@ -85,6 +85,19 @@ func ordAgree(toks [][]byte, key []byte) bool {
 	return true
 }
 
+// ordAgreeOp answers the harness's classification predicate per key (compared with the model's evaluation of the
+// theorem's hypothesis)
+func ordAgreeOp(w []string) string {
+	parts := make([]string, len(w)-1)
+	for i, k := range w[1:] {
+		parts[i] = "0"
+		if ordAgree(ordTokens, unhexKey(k)) {
+			parts[i] = "1"
+		}
+	}
+	return strings.Join(parts, " ")
+}
+
 func keyClass(key []byte) string {
 	switch {
 	case len(key) == 0:
@@ -104,7 +117,17 @@ func keyClass(key []byte) string {
 func (ru *run) ordCluster(hosts []string, toks [][]byte, keys [][]byte) {
 	ru.nClust++
 	ru.emit("resetord "+strings.Join(hosts, " "), "resetord", true)
-	var agree, differ []string
+	var agree, differ, all []string
+	for _, k := range keys {
+		if len(k) > 0 {
+			all = append(all, hex.EncodeToString(k))
+		} else {
+			all = append(all, "-")
+		}
+	}
+	if len(all) > 0 {
+		ru.emit("oagree "+strings.Join(all, " "), "oagree", true)
+	}
 	for _, k := range keys {
 		ks := "-"
 		if len(k) > 0 {
